@@ -638,6 +638,13 @@ func run(r *eng.Runner) {
 				Files: map[string]string{"/base": base3, "/mid": `{% extends "base" %}{% block note %}N1{% endblock %}`, "/leaf": `{% extends "mid" %}`}},
 			{Label: "only-in-base", Leaf: "/leaf", Blocks: []string{"foot", "nosuch"}, Want: map[string]string{"foot": "F0"},
 				Files: map[string]string{"/base": base3, "/mid": `{% extends "base" %}{% block note %}N1{% endblock %}`, "/leaf": `{% extends "mid" %}{% block title %}t{% endblock %}`}},
+			// Super inside the definitions that ExecuteBlocks renders
+			{Label: "super-two-levels", Leaf: "/leaf", Blocks: []string{"note", "foot"}, Want: map[string]string{"note": "L(N0)", "foot": "F0"},
+				Files: map[string]string{"/base": base3, "/leaf": `{% extends "base" %}{% block note %}L({{ block.Super }}){% endblock %}`}},
+			{Label: "super-three-levels", Leaf: "/leaf", Blocks: []string{"title", "note"}, Want: map[string]string{"note": "L(M[N0])", "title": "T{T0}"},
+				Files: map[string]string{"/base": base3, "/mid": `{% extends "base" %}{% block note %}M[{{ block.Super }}]{% endblock %}{% block title %}T{{ "{" }}{{ block.Super }}{{ "}" }}{% endblock %}`, "/leaf": `{% extends "mid" %}{% block note %}L({{ block.Super }}){% endblock %}`}},
+			{Label: "super-at-the-base", Leaf: "/leaf", Blocks: []string{"foot"}, Want: map[string]string{"foot": "<>F0"},
+				Files: map[string]string{"/base": "[{% block foot %}<{{ block.Super }}>F0{% endblock %}]", "/leaf": `{% extends "base" %}`}},
 			{Label: "all-in-leaf", Leaf: "/leaf", Blocks: []string{"note", "title"}, Want: map[string]string{"note": "n", "title": "t"},
 				Files: map[string]string{"/base": base3, "/leaf": `{% extends "base" %}{% block note %}n{% endblock %}{% block title %}t{% endblock %}`}},
 		}
